@@ -523,3 +523,26 @@ impl io::Write for CountSink {
         Ok(())
     }
 }
+
+// ---------------------------------------------------------------------------------------
+// Allocation observer: `vec![elem; n]` (alloc::vec::from_elem) replaced by a stub that records
+// the largest element count requested, so that "no allocation out of proportion to the input"
+// becomes an assertable fact. The stub returns at most 4 elements (enough for the harnesses
+// that use it); what is checked is the REQUEST.
+// ---------------------------------------------------------------------------------------
+pub static ALLOC_MAX_REQUEST: std::sync::atomic::AtomicUsize = std::sync::atomic::AtomicUsize::new(0);
+
+pub fn observing_from_elem<T: Clone>(elem: T, n: usize) -> Vec<T> {
+    let old = ALLOC_MAX_REQUEST.load(std::sync::atomic::Ordering::Relaxed);
+    if n > old {
+        ALLOC_MAX_REQUEST.store(n, std::sync::atomic::Ordering::Relaxed);
+    }
+    let mut v: Vec<T> = Vec::with_capacity(4);
+    let k = if n < 4 { n } else { 4 };
+    let mut i = 0;
+    while i < k {
+        v.push(elem.clone());
+        i += 1;
+    }
+    v
+}
